@@ -7,5 +7,8 @@ EmitLine(rec) ==
 Emit == EmitLine([kind |-> kind, body |-> body, v |-> v, w |-> w,
                   toks |-> IF kind = "body" THEN Scan(body, 1) ELSE <<>>,
                   onlybody |-> kind = "body" /\ NoExpr(Scan(body, 1)),
-                  expect |-> IF kind = "body" /\ NoExpr(Scan(body, 1)) THEN BodyText(Scan(body, 1)) ELSE <<>>])
+                  expect |-> IF kind = "body" /\ NoExpr(Scan(body, 1)) THEN BodyText(Scan(body, 1)) ELSE <<>>,
+                  \* the same body evaluated in a context without any property
+                  onlybody0 |-> kind = "body" /\ NoExpr(Scan0(body, 1)),
+                  expect0 |-> IF kind = "body" /\ NoExpr(Scan0(body, 1)) THEN BodyText(Scan0(body, 1)) ELSE <<>>])
 =============================================================================
